@@ -334,7 +334,7 @@ def dense_oracles(ctx, quick):
             chk('measure_mpo(sum of MPOs)', np.array(mps.measure_mpo(a, [O, P], b)), np.vdot(va, (MO + MP) @ vb))
             chk('measure_mpo((f a), O, b)', np.array(mps.measure_mpo(f * a, O, b)), np.vdot(f * va, MO @ vb))
             # zipper / compression without truncation (SVD inside: tolerance)
-            if N >= 2:
+            if N >= 1:
                 zz = mps.zipper(O, a, opts_svd={'tol': 1e-14}, normalize=False)
                 chk('zipper(O,a)', dvec(zz, ops), MO @ va, exact=False)
                 z2 = mps.zipper(3 * O, a, opts_svd={'tol': 1e-14}, normalize=False)
@@ -342,10 +342,16 @@ def dense_oracles(ctx, quick):
                 z3 = mps.zipper(O, P, opts_svd={'tol': 1e-14}, normalize=False)
                 chk('zipper(O,P)', dmat(z3, ops), MO @ MP, exact=False)
                 if np.linalg.norm(MO @ va) > 1e-9:
-                    psi = zz.copy()
-                    psi.canonize_(to='first')
-                    mps.compression_(psi, [O, a], method='2site', max_sweeps=4, opts_svd={'tol': 1e-14}, normalize=False)
-                    chk('compression_(2site, no truncation)', dvec(psi, ops), MO @ va, exact=False)
+                    # variational compression started from the exact answer and from a scrambled state with the same bonds
+                    for start in ('exact', 'scrambled'):
+                        psi = zz.copy()
+                        if start == 'scrambled':
+                            for n_ in range(N):
+                                psi[n_]._data = np.cos(0.7 + 1.3 * np.arange(psi[n_].size) * (n_ + 1)) + 0.1
+                        psi.canonize_(to='first')
+                        meth = rng.choice(['1site', '2site'])
+                        mps.compression_(psi, [O, a], method=meth, max_sweeps=8 if start == 'scrambled' else 4, opts_svd={'tol': 1e-14}, normalize=False)
+                        chk('compression_(%s, no truncation, start %s)' % (meth, start), dvec(psi, ops), MO @ va, exact=False)
             # mps_from_tensor
             ten = a.to_tensor()
             if ten.size and N >= 1 and np.any(va != 0):       # the zero tensor has no normalised MPS form (division by its norm)
